@@ -69,8 +69,8 @@ def k_images(order):
     samples.set_compose(m.compose)
     paths = ["z.iso", "a.iso", "m/b.iso", "B.iso", "0.iso"]
     for i in order:
-        m.add("Server" if i % 2 else "Client", "x86_64", samples.image(m, path=paths[i - 1], subvariant="S%d" % i,
-                                                                       sums={"sha256": "%x" % i * 64, "md5": "%x" % i * 32}))
+        m.add("Server", "x86_64", samples.image(m, path=paths[i - 1], subvariant="S%d" % i,
+                                                sums={"sha256": "%x" % i * 64, "md5": "%x" % i * 32}))
         if i == 1:
             m.add("Server", "ppc64le", samples.image(m, path="p.iso", subvariant="P"))
     return m
@@ -93,8 +93,12 @@ def k_modules(order):
     m = Modules()
     samples.set_compose(m.compose)
     uids = ["httpd:2.4", "perl:5.26:1", "django:1.6:2:c0ffee", "a:b", "Z:9"]
+    shared = ["common-0:1-1.noarch"]           # one list object handed to every call, as callers do
     for i in order:
-        m.add("Server" if i % 2 else "Client", "x86_64", uids[i - 1], "tag", "p/m%d.yaml" % i, ["binary", "debug", "source"][i % 3], [])
+        m.add("Server" if i % 2 else "Client", "x86_64", uids[i - 1], "tag", "p/m%d.yaml" % i, ["binary", "debug", "source"][i % 3], shared)
+        if i in (1, 2):                        # the same module on a second arch, then a second category for one of them
+            m.add("Server" if i % 2 else "Client", "ppc64le", uids[i - 1], "tag", "p/m%d.yaml" % i, "binary", shared)
+            m.add("Server" if i % 2 else "Client", "x86_64", uids[i - 1], "tag", "p/d%d.yaml" % i, "debug", ["dbg%d-0:1-1.noarch" % i])
     return m
 
 
